@@ -899,6 +899,12 @@ impl Server {
                 // Drop before parse: parse re-registers the text, so
                 // dropping after would erase the just-registered entry.
                 if let Some(path_id) = resource_table::get_path_id(path.to_path_buf()) {
+                    // Background analysis may have run pass1 on this file
+                    // without the pass being finished: its queued pass1
+                    // output (reference and type-dag candidates, imports,
+                    // ...) must be consumed before the file is dropped, or
+                    // `analyze_post_pass1` meets dangling entries and panics.
+                    Analyzer::analyze_post_pass1();
                     Analyzer::drop_file(path_id, Some(prj.into()));
                 }
                 let diag = match Parser::parse(text, &path) {
@@ -971,6 +977,9 @@ impl Server {
         if let Some(path) = url.to_file_path()
             && let Some(path_id) = resource_table::get_path_id(path.to_path_buf())
         {
+            // See `on_change`: consume pass1 output queued by an unfinished
+            // background pass before dropping the file it belongs to.
+            Analyzer::analyze_post_pass1();
             Analyzer::drop_file(path_id, None);
         }
     }
